@@ -17,7 +17,7 @@ IsEvent(e) == l <= Len(Rec) /\ Rec[l].ev = e /\ l' = l + 1
 Check(P) == IF P THEN TRUE ELSE FALSE
 None == [open |-> FALSE]
 
-Idle == /\ plen' = 0 /\ kind' = "plain" /\ dmg' = "none" /\ remaining' = 0 /\ cipherPos' = 0 /\ macFed' = 0
+Idle == /\ plen' = 0 /\ kind' = "plain" /\ dmg' = "none" /\ comp' = FALSE /\ remaining' = 0 /\ cipherPos' = 0 /\ macFed' = 0
         /\ macChecked' = FALSE /\ delivered' = 0 /\ hashed' = 0 /\ crcArmed' = TRUE /\ eof' = FALSE
         /\ failed' = FALSE /\ lastn' = 0 /\ lastk' = 0
 TraceReset == IsEvent("Reset") /\ Idle /\ o' = None
@@ -32,7 +32,7 @@ TraceEOpen ==
       THEN /\ o' = [open |-> TRUE, exact |-> Exact(ev), kind |-> ev.kind, declared |-> ev.declared, usize |-> ev.usize,
                     exp |-> ev.exp, dmg |-> ev.dmg, via |-> ev.via, got |-> 0, eof |-> FALSE, failed |-> FALSE,
                     pwkind |-> ev.pwkind]
-           /\ plen' = ev.usize /\ kind' = ev.kind /\ dmg' = DmgOf(ev.dmg) /\ remaining' = ev.usize
+           /\ plen' = ev.usize /\ kind' = ev.kind /\ dmg' = DmgOf(ev.dmg) /\ comp' = (ev.method # 0) /\ remaining' = ev.usize
            /\ cipherPos' = 0 /\ macFed' = 0 /\ macChecked' = FALSE /\ delivered' = 0 /\ hashed' = 0
            /\ crcArmed' = TRUE /\ eof' = FALSE /\ failed' = FALSE /\ lastn' = 0 /\ lastk' = 0
            \* the reader reports the CRC the archive declares (central record / local header when streaming)
@@ -76,7 +76,7 @@ TraceEEnd ==
             /\ (ev.eof /\ ~ev.failed /\ ~ev.summarised => ev.total = o.got))
    /\ o' = None /\ UNCHANGED vars
 
-TraceInit == l = 1 /\ o = None /\ plen = 0 /\ kind = "plain" /\ dmg = "none" /\ remaining = 0 /\ cipherPos = 0
+TraceInit == l = 1 /\ o = None /\ plen = 0 /\ kind = "plain" /\ dmg = "none" /\ comp = FALSE /\ remaining = 0 /\ cipherPos = 0
              /\ macFed = 0 /\ macChecked = FALSE /\ delivered = 0 /\ hashed = 0 /\ crcArmed = TRUE /\ eof = FALSE
              /\ failed = FALSE /\ lastn = 0 /\ lastk = 0
 TraceNext == TraceReset \/ TraceEOpen \/ TraceERead \/ TraceEEnd
